@@ -223,11 +223,9 @@ func (enc *encoder) encodeScalarField(scalar j5reflect.ScalarField) error {
 		enc.addUint64(vt)
 		return nil
 	case float32:
-		enc.addFloat(float64(vt), 32)
-		return nil
+		return enc.addFloat(float64(vt), 32)
 	case float64:
-		enc.addFloat(vt, 64)
-		return nil
+		return enc.addFloat(vt, 64)
 	case []byte:
 		vv := base64.StdEncoding.EncodeToString(vt)
 		return enc.addString(vv)
